@@ -29,11 +29,12 @@ def _lit(v):
     return "nil" if v == "nil" else f'"{v}"'
 
 
-def concretize(case, variant=0):
-    """-> (source, templates, data, kwargs for from_string, env globals)"""
+def concretize(case, variant=0, reads="all"):
+    """-> (source, templates, data, kwargs for from_string, env globals).  reads="leaf": only the shared partial `leaf` reads"""
     prog = case["prog"]
     names = sorted(prog[0]["reads"])
-    R = _reads(names, variant)
+    RL = _reads(names, variant)
+    R = RL if reads == "all" else ""
     templates, data = {}, {}
 
     def build(i):
@@ -51,6 +52,10 @@ def concretize(case, variant=0):
                 return "".join(out), i, int(n)
             if op == "assign":
                 out.append(f"{{% assign {n} = {_lit(v)} %}}" + R)
+                i += 1
+            elif op in ("incleaf", "renderleaf"):
+                templates["leaf"] = RL
+                out.append('{% include "leaf" %}' if op == "incleaf" else '{% render "leaf" %}')
                 i += 1
             elif op == "capture":
                 out.append(f"{{% capture {n} %}}{v}{{% endcapture %}}" + R)
@@ -179,7 +184,9 @@ def in_copy(case, step):
         elif r["op"] == "break":
             for _ in range(int(r["n"])):
                 stack.pop()
-        elif r["op"] not in ("assign", "capture", "incr", "decr"):
+        elif r["op"] == "renderleaf" and i == step:
+            return True
+        elif r["op"] not in ("assign", "capture", "incr", "decr", "incleaf", "renderleaf"):
             stack.append(r["op"])
     return any(s in COPY_OPS for s in stack)
 
@@ -202,15 +209,17 @@ def replay_one(job):
 
 def tlc_jobs(tier):
     def job(tag, **kw):
-        p = dict(Names='{"a"}', MaxOps=4, MaxDepth=3, GlobalSets="GlobalsNone", NilVals="FALSE", Interrupts="FALSE", Extra="INVARIANT Emit")
+        p = dict(Names='{"a"}', MaxOps=4, MaxDepth=3, GlobalSets="GlobalsNone", NilVals="FALSE", Interrupts="FALSE", Leaves="FALSE", Extra="INVARIANT Emit")
         p.update(kw)
         return ("Scope", gen_cfg("cfg/Scope.tmpl", p, tag), dict(workers=1, timeout=3000))
     if tier == "quick":
         return [job("q1", MaxOps=4, Interrupts="TRUE"),
+                job("q5", MaxOps=3, Leaves="TRUE", GlobalSets="GlobalsEnv"),
                 job("q2", MaxOps=3, GlobalSets="GlobalsQuick"),
                 job("q3", Names='{"a","b"}', MaxOps=3, MaxDepth=2),
                 job("q4", MaxOps=3, NilVals="TRUE", GlobalSets="GlobalsEnv")]
     return [job("t1", MaxOps=5, Interrupts="TRUE"),
+            job("t5", MaxOps=4, Leaves="TRUE", GlobalSets="GlobalsQuick"),
             job("t2", MaxOps=4, MaxDepth=4, GlobalSets="GlobalsAll"),
             job("t3", Names='{"a","b"}', MaxOps=4, MaxDepth=3, Interrupts="TRUE"),
             job("t4", MaxOps=4, NilVals="TRUE", GlobalSets="GlobalsQuick")]
@@ -220,7 +229,7 @@ def scope_family(ck, tier, only_copy=False):
     """Run Scope.tla, replay; returns list of (case, variant, src, templates, how, (step, msg))"""
     rnd = random.Random(seed())
     try:
-        results = run_many(tlc_jobs(tier), parallel=4)
+        results = run_many(tlc_jobs(tier), parallel=5)
     finally:
         cleanup_gen()
     cases = []
